@@ -1327,6 +1327,9 @@ pub fn handle_trailer(
             end_stream: false,
         }));
     }
+    // The attribution fields below are rewritten on *requests*; a backend's
+    // response trailers are its own business and reach the client as sent.
+    let is_request = kawa.kind == Kind::Request;
     let max_header_fields = max_header_fields as usize;
     let mut invalid_trailers = false;
     let mut budget_exceeded = false;
@@ -1406,10 +1409,12 @@ pub fn handle_trailer(
         // RFC 9113 §8.2.2), so a byte-equality check is sufficient.
         // `incr!` records the rejection so dashboards observe the
         // attempted smuggle without spamming logs.
-        if matches!(
-            k.as_ref(),
-            b"x-real-ip" | b"x-forwarded-for" | b"forwarded" | b"x-request-id"
-        ) {
+        if is_request
+            && matches!(
+                k.as_ref(),
+                b"x-real-ip" | b"x-forwarded-for" | b"forwarded" | b"x-request-id"
+            )
+        {
             incr!(names::h2::TRAILER_SPOOF_VECTOR_ELIDED);
             return;
         }
